@@ -374,17 +374,18 @@ def sched_cases():
                         yield {"sched": True, "before": before, "kind": kind, "after": after, "arrival": arrival, "lookahead": la, "workers": 1 + (la == 5)}
 
 
-def run_sched(case, source=None):
+def run_sched(case, source=None, record=False):
     from . import c11
-    from ..refhttp import response as RESP
     c = {k: v for k, v in case.items() if k != "sched"}
-    fs, nt, labels, trace, sched = c11.run_case_full(c, source=source)
+    fs, nt, labels, trace, sched = c11.run_case_full(c, source=source, record=record)
     out = [{"sig": "C06/sched/" + f["sig"].split("/", 1)[1], "detail": "refused message with pipelined followers: " + f["detail"]} for f in fs]
     return out, nt, set("sched-" + l for l in labels), trace, sched
 
 
 def jobs(tier, seed):
     js = [{"kind": "sweep_header"}, {"kind": "sweep_body"}]
+    for kind in ("bad_framing", "oversize", "oversize_body"):
+        js.append({"kind": "sched_sys", "refusal": kind, "bound": 2 if tier == "quick" else 3, "max_runs": 5000 if tier == "quick" else 60000})
     for sh in range(3):
         js.append({"kind": "sched", "n": 12 if tier == "quick" else 300, "seed": derive_seed(seed, "c06s", sh), "shard": sh, "nshards": 3})
     for sh in range(4):
@@ -408,7 +409,23 @@ def run_job(job, col):
         col.record(case, fs, nontrivial=nt, labels=labels)
 
     k = job["kind"]
-    if k == "sched":
+    if k == "sched_sys":
+        # every schedule with at most `bound` deviations from the default one, for a refused message followed by a request in a later read
+        from .. import schedules as SCH
+        from .. import simsched as SS
+        base = {"sched": True, "before": 0, "kind": job["refusal"], "after": ["req"], "arrival": "later", "lookahead": 1, "workers": 1}
+
+        def runner_(src):
+            fs, nt, labels, trace, sched = run_sched(base, source=src, record=True)
+            return sched, (fs, nt, labels)
+
+        n = 0
+        for trace, (fs, nt, labels) in SS.systematic(runner_, job["bound"], job["max_runs"]):
+            n += 1
+            col.record(dict(base, schedule=SCH.replay_spec(trace)), fs, nontrivial=len(trace) > 0, labels=set(labels) | {"sched-systematic"})
+        if n < job["max_runs"]:
+            col.exhaustive("every schedule with <= %d deviations from the default scheduler for a refused message (400 / 431 / 413) followed by a request in a later read, read-ahead 1" % job["bound"])
+    elif k == "sched":
         import random
         from .. import schedules as SCH
         rnd = random.Random(job["seed"])
